@@ -44,6 +44,7 @@ type covRec struct {
 	iterBad  string    // first per-iteration violation (chains / submits)
 	wrapBad  string    // an exec outcome wrapped without the is-it-a-Result test
 	cutBad   string    // an item cut short by cancellation whose slot error does not match the context's error
+	isAppend bool      // the list is built by appending one element per iteration (base = latest append result)
 	emptyOf  *eng.Term // the loop ran zero iterations because this slice was empty
 	storePos string
 }
@@ -73,7 +74,7 @@ type batchState struct {
 func (s batchState) Key() string {
 	var sb strings.Builder
 	for _, r := range s.recs {
-		fmt.Fprintf(&sb, "[%s|%s|%d|%v%v%v|%s|%d|%d,%d|%v|%s|%s|%s|%s|%s|%s]", r.loop, r.base.Key(), r.c, r.startOK, r.stored, r.skipped, r.broken, r.done, r.chains, r.submits, r.failed, r.resBad, r.fillBad, r.normBad, r.normSrc.Key()+"/"+r.emptyOf.Key(), r.iterBad+"/"+r.wrapBad+"/"+r.cutBad, r.storePos)
+		fmt.Fprintf(&sb, "[%s|%s|%d|%v%v%v|%s|%d|%d,%d|%v|%s|%s|%s|%s|%s|%s]", r.loop, r.base.Key(), r.c, r.startOK, r.stored, r.skipped, r.broken, r.done, r.chains, r.submits, r.failed, r.resBad, r.fillBad, r.normBad, r.normSrc.Key()+"/"+r.emptyOf.Key(), r.iterBad+"/"+r.wrapBad+"/"+r.cutBad+fmt.Sprint(r.isAppend), r.storePos)
 	}
 	fmt.Fprintf(&sb, "%v,%d,%d,%s,%v,%v,%s,%v%v,%v,%s,%s|", s.chainOpen, s.inTask, s.held, s.flagRead.Key(), s.flagReadOK, s.flagSet, s.pool.Key(), s.outstanding, s.closed, s.poolEvents || s.submitted, s.conc.Key(), s.execIdx.Key())
 	for _, b := range s.execBases {
@@ -285,6 +286,19 @@ func (m *BatchMon) OnEvent(c *eng.Ctx, ms eng.MState, ev *eng.Event) eng.MState 
 			}
 		}
 	case "branch":
+		if sl := guardedEmptySlice(ev); sl != nil && sl.K == eng.KSliceOf {
+			// an explicit "nothing left" guard in front of a fill loop counts like the loop's zero-trip exit
+			s.cow()
+			id := "guard|" + ev.FrameCtx + "|" + posStr(ev.Pos)
+			if r := s.rec(id); r != nil {
+				*r = covRec{loop: id, emptyOf: sl}
+			} else {
+				if len(s.recs) >= 8 {
+					s.recs = s.recs[1:]
+				}
+				s.recs = append(s.recs, covRec{loop: id, emptyOf: sl})
+			}
+		}
 		if ifi, ok := ev.Instr.(*ssa.If); ok {
 			fi := c.E.InfoOf(ev.Fn)
 			if l, _, ok := fi.IVExit(ifi); ok && !l.Blocks[ev.Succ] {
@@ -315,7 +329,15 @@ func (m *BatchMon) OnEvent(c *eng.Ctx, ms eng.MState, ev *eng.Event) eng.MState 
 	case "mapupdate", "mapdelete":
 		chk("C07.R4", "shared-write", false, "batch processing writes a map shared between items")
 	case "append":
-		if len(ev.Args) > 0 {
+		handled := false
+		if len(ev.Args) == 2 && len(ev.Results) == 1 {
+			// a list built by appending Result{value: src[IV]} once per iteration of a loop over src
+			// is an index-preserving copy of src, like the make + index-store form
+			if elems := c.E.SliceElems(c.St, ev.Args[1]); len(elems) == 1 && elems[0].K == eng.KStruct && elems[0].T != nil && m.isResult(elems[0].T) {
+				s, handled = m.onAppendCopy(c, s, ev, elems[0])
+			}
+		}
+		if len(ev.Args) > 0 && !handled {
 			for _, r := range s.recs {
 				if r.base != nil && ev.Args[0] == r.base {
 					chk("C06.R3", "results-append", false, "the result list is appended to (completion order) instead of being written by index")
@@ -429,10 +451,22 @@ func (m *BatchMon) exitMatches(c *eng.Ctx, r *covRec, ev *eng.Event) int8 {
 	if l, ok := eng.IVLoop(k.S); !ok || l != r.loop {
 		return -1
 	}
-	if off != r.c {
+	if st, ok := c.E.IVStep[k.S]; ok && st != 1 {
 		return -1
 	}
-	if st, ok := c.E.IVStep[k.S]; ok && st != 1 {
+	// a head-tested loop tests the index it is about to use; a bottom-tested (rotated) loop,
+	// e.g. range-over-int, tests the next one after the body has used the current one
+	wantOff := r.c
+	if blk := ev.Instr.Block(); blk != nil && eng.LoopID(ev.FrameCtx, blk) != r.loop {
+		wantOff = r.c + 1
+	}
+	if off != wantOff {
+		return -1
+	}
+	if r.isAppend {
+		if r.normSrc != nil && bound == sliceLen(r.normSrc) {
+			return 1
+		}
 		return -1
 	}
 	root, lo, open := splitBase(r.base)
@@ -455,6 +489,55 @@ func (m *BatchMon) exitMatches(c *eng.Ctx, r *covRec, ev *eng.Event) int8 {
 		}
 	}
 	return -1
+}
+
+// onAppendCopy records one step of a list built by append (see the "append" event).
+func (m *BatchMon) onAppendCopy(c *eng.Ctx, s batchState, ev *eng.Event, elem *eng.Term) (batchState, bool) {
+	vi, ei, okF := resultFields(m.R)
+	if !okF || vi >= len(elem.A) || ei >= len(elem.A) {
+		return s, false
+	}
+	v := elem.A[vi]
+	if !(v.K == eng.KLoad && v.A[0].K == eng.KIndexAddr) {
+		return s, false
+	}
+	src, idx := v.A[0].A[0], v.A[0].A[1]
+	k, off := eng.AffParts(idx)
+	loop := ""
+	if k != nil && k.K == eng.KSym && k.G == 0 {
+		loop, _ = eng.IVLoop(k.S)
+	}
+	s.cow()
+	r := s.rec(loop)
+	if loop == "" || r == nil {
+		return s, false
+	}
+	dst := ev.Args[0]
+	if r.base == nil {
+		empty := dst.K == eng.KNil || dst.K == eng.KZero || (dst.K == eng.KMake && dst.T != nil && len(dst.A) >= 1 && dst.A[0] != nil && dst.A[0].IsConstInt() && dst.A[0].I == 0)
+		r.isAppend, r.c, r.normSrc = true, off, src
+		r.startOK = empty && c.E.Eval(c.St.Facts(), eng.Bin("==", eng.Aff(k, off), eng.ConstInt(0))) == eng.TriTrue
+		if r.skipped && r.broken == "" {
+			r.broken = "an earlier iteration completed without appending its element"
+		}
+		r.storePos = posStr(ev.Pos)
+	} else if !r.isAppend || r.base != dst {
+		if r.broken == "" {
+			r.broken = "the list is not extended by exactly the previous append's result (" + posStr(ev.Pos) + ")"
+		}
+	}
+	if r.stored && r.broken == "" {
+		r.broken = "two elements appended in one iteration (" + posStr(ev.Pos) + ")"
+	}
+	if (r.normSrc != src || off != r.c) && r.normBad == "" {
+		r.normBad = "appended element comes from " + v.Pretty() + ", not from the element of the source list at this iteration's index"
+	}
+	if !(elem.A[ei].K == eng.KNil || c.IsNil(elem.A[ei]) == eng.TriTrue) && r.normBad == "" {
+		r.normBad = "appended element " + elem.Pretty() + " is not a plain value Result"
+	}
+	r.base = ev.Results[0]
+	r.stored = true
+	return s, true
 }
 
 func (m *BatchMon) iterationEnd(c *eng.Ctx, s *batchState, r *covRec, life lifeState, ev *eng.Event) {
@@ -765,6 +848,38 @@ func (m *BatchMon) onPost(c *eng.Ctx, s batchState, life lifeState, ev *eng.Even
 
 // zeroTripSlice: a loop left at its very first test "0 < len(x)" (or the
 // rotated equivalents) ran no iteration because x is empty; returns x.
+// guardedEmptySlice: the branch outcome says len(S) == 0 for a slice S (len(S) == 0 taken,
+// len(S) != 0 / 0 < len(S) / len(S) > 0 not taken).
+func guardedEmptySlice(ev *eng.Event) *eng.Term {
+	cond := ev.Cond
+	if cond == nil {
+		return nil
+	}
+	neg := false
+	for cond.K == eng.KNot {
+		cond, neg = cond.A[0], !neg
+	}
+	if cond.K != eng.KBin {
+		return nil
+	}
+	truth := ev.Taken != neg
+	zero := func(t *eng.Term) bool { return t.IsConstInt() && t.I == 0 }
+	x, y := cond.A[0], cond.A[1]
+	switch {
+	case cond.S == "==" && truth && x.K == eng.KLen && zero(y):
+		return x.A[0]
+	case cond.S == "==" && truth && y.K == eng.KLen && zero(x):
+		return y.A[0]
+	case cond.S == "!=" && !truth && x.K == eng.KLen && zero(y):
+		return x.A[0]
+	case cond.S == "<" && !truth && zero(x) && y.K == eng.KLen:
+		return y.A[0]
+	case cond.S == ">" && !truth && x.K == eng.KLen && zero(y):
+		return x.A[0]
+	}
+	return nil
+}
+
 func zeroTripSlice(ev *eng.Event) *eng.Term {
 	cond := ev.Cond
 	neg := false
@@ -860,6 +975,8 @@ func (m *BatchMon) checkItems(c *eng.Ctx, s batchState, life lifeState, items *e
 		src := nr.normSrc
 		fromPrep := (src.K == eng.KTA && src.A[0] == life.prepVal) || (src == s.toSliceRes && s.toSliceArg == life.prepVal)
 		chk("C06.R7", "items", fromPrep, "items are copied from "+src.Pretty()+", which is not prep's value")
-		chk("C06.R7", "items", c.E.LenTerm(c.St, items) == c.E.LenTerm(c.St, src), "the item list and prep's list differ in length")
+		if !nr.isAppend { // one append per iteration of an exhausted loop over src gives len(src) by construction
+			chk("C06.R7", "items", c.E.LenTerm(c.St, items) == c.E.LenTerm(c.St, src), "the item list and prep's list differ in length")
+		}
 	}
 }
